@@ -2090,6 +2090,9 @@ def any_counts_as_object(ctx):
         ("inside type[...]", type[int], type[A_], type[object]),
         ("an argument of a generic", list[int], list[A_], list[object]),
         ("a nested argument", type[dict[str, int]], type[dict[str, A_]], type[dict[str, object]]),
+        ("Any on both sides", A_, A_, object),
+        ("Any on both sides, nested", type[dict[A_, bool]], type[dict[A_, int]], type[dict[object, int]]),
+        ("Any on the left", A_, int, int),
     ]
     problems = []
     for what, t, with_any, with_object in pairs:
